@@ -19,7 +19,9 @@ Inductive tyexpr :=
 Inductive lit :=
 | LInt (z : Z)
 | LFloat (txt : string)              (* as written, e.g. 1.5 — also its str() *)
-| LStr (s : string)
+| LStr (s : string)                  (* as a field default: the text between the quotes of ='...' / ="...", verbatim —
+                                        no escape processing (a backslash is a backslash); inside a tuple default the
+                                        whole "(...)" is a Python literal and s is the value of the element *)
 | LBool (b : bool)
 | LTuple (l : list lit).
 
